@@ -32,8 +32,10 @@ RULE = (
 )
 ASSUMPTIONS = [
     "[Song] is out of scope (no event kinds, nothing is reported there)",
-    "garbage stays inside ASCII printable characters plus tab and a few non-ASCII letters: Unicode "
-    "white space / digits, which the shipped \\s and \\d would accept, are not generated",
+    "garbage is made of ASCII printable characters, tab, a few non-ASCII letters and control / format "
+    "characters that are neither white space nor line boundaries (NUL, BEL, BS, SUB = Ctrl-Z, ESC, DEL, BOM, "
+    "ZWSP); Unicode white space / digits, which the shipped \\s and \\d would accept, and the characters "
+    "str.splitlines() treats as line ends are not generated",
     "events-section kinds overlap by design (first match wins), so disjointness is asserted only for "
     "the sync and instrument kinds",
 ]
@@ -50,6 +52,12 @@ FIXED_GARBAGE = [
     '0 = E "section a"', '0 = E "lyric b"', '  0 = E "t"', '0 = E "unterminated', "0 = E two words",
     "[Song]", "{x", "}x", "0 = B 1.5", "0 = B -5", "0 = TS 4 2 1", "0 = A 1 2", "0 = N 0 0x",
 ]
+
+
+# characters with a meaning to terminals, DOS-era tools or decoders; inside a chart line they are just garbage
+CONTROL_GARBAGE = ["\x1a", "garbage \x1a more", ";; merged \x1a ;;", "\x00", "x\x00y", "\x07", "\x08\x08", "\x1b[0m",
+                   "\x7f", "\ufeff", "\ufeff[Song]", "\u200b", "0 = N 0 0\x1a", "\x1a0 = N 0 0", "}\x1a", "\x1a}",
+                   "\x1a\x1a\x1a", "0 = B 120000\x00", '0 = E "x\x1a', "\x04", "\x03"]
 
 
 def _garbage_for(section_kind: str, line: str) -> bool:
@@ -71,7 +79,8 @@ index_garbage = st.one_of(
     st.builds(lambda t, k, n: f"  {t} = N {k} {n}", st.integers(0, 5000), st.integers(8, 99), st.integers(0, 99)),
     st.builds(lambda t, k, n: f"  {t} = S {k} {n}", st.integers(0, 5000),
               st.integers(0, 99).filter(lambda k: k != 2), st.integers(0, 99)))
-garbage_line = st.one_of(st.sampled_from(FIXED_GARBAGE), st.sampled_from(FIXED_GARBAGE), soup, index_garbage)
+garbage_line = st.one_of(st.sampled_from(FIXED_GARBAGE), st.sampled_from(FIXED_GARBAGE), soup, index_garbage,
+                         st.sampled_from(CONTROL_GARBAGE))
 
 
 @st.composite
